@@ -261,3 +261,68 @@ impl<E> Drop for CQueue<E> {
 
 #[cfg(test)]
 mod tests;
+
+/// A full structural snapshot of a [`CQueue`], for verification harnesses.
+#[cfg(petrichorit_des_verif)]
+#[derive(Debug, Clone, PartialEq, Eq, Hash)]
+pub struct VerifSnapshot {
+    pub n: usize,
+    pub t: Duration,
+    pub head: usize,
+    pub t_current: Duration,
+    pub t0: Duration,
+    pub t1: Duration,
+    pub len: usize,
+    pub event_id: usize,
+    /// `(time, id)` of the zero-delay bucket, front to back.
+    pub zero: Vec<(Duration, usize)>,
+    /// per bucket: forward walk, backward walk, stored length.
+    pub buckets: Vec<(Vec<(Duration, usize)>, Vec<(Duration, usize)>, usize)>,
+}
+
+#[cfg(petrichorit_des_verif)]
+impl<E> CQueue<E> {
+    /// Returns a structural snapshot of the queue.
+    #[must_use]
+    pub fn verif_snapshot(&self) -> VerifSnapshot {
+        VerifSnapshot {
+            n: self.n,
+            t: self.t,
+            head: self.head,
+            t_current: self.t_current,
+            t0: self.t0,
+            t1: self.t1,
+            len: self.len,
+            event_id: self.event_id,
+            zero: self.zero_event_bucket.iter().map(|v| (v.1, v.2)).collect(),
+            buckets: self.buckets.iter().map(DualLinkedList::verif_walk).collect(),
+        }
+    }
+
+    /// Same as [`CQueue::new`] but with an explicit allocator page size.
+    #[must_use]
+    pub fn verif_with_page_size(n: usize, t: Duration, page_size: usize) -> Self {
+        let t_all = t.as_nanos() * n as u128;
+        let mut alloc = Box::new(CQueueLLAllocatorInner::with_page_size(page_size));
+        Self {
+            n,
+            t_nanos: t.as_nanos(),
+            t,
+            zero_event_bucket: VecDeque::with_capacity(64),
+            buckets: std::iter::repeat_with(|| DualLinkedList::new(alloc.handle()))
+                .take(n)
+                .collect(),
+            head: 0,
+            t_current: Duration::ZERO,
+            t0: Duration::ZERO,
+            t1: t,
+            t_all,
+            alloc,
+            event_id: 0,
+            len: 0,
+        }
+    }
+}
+
+#[cfg(petrichorit_des_verif)]
+pub use alloc::verif::{verif_set_alloc_observer, VerifAllocEvent};
